@@ -293,3 +293,8 @@ def _void_api(ck, prog):
         ok = len(rets) == 1 and unparse(rets[0].value) == "self.SeqObj.%s()" % backend
         ck.ob("BIND-api", f.mod.relpath + ":" + f.qual, ok, expected="return self.SeqObj.%s()" % backend, found=[unparse(r.value) for r in rets],
               slot="forwards", where=f.loc())
+
+
+def run_thorough(ck, prog):
+    from props import thorough
+    ck.attempt(thorough.doc_phospho_tuple, ck, prog)
